@@ -131,8 +131,17 @@ func (mt *MemTopics) Retained(topic []byte, msgs *[]*message.PublishMessage) err
 
 // Close implements Provider.
 func (mt *MemTopics) Close() error {
-	mt.sroot = nil
-	mt.rroot = nil
+	// Connections may still be using the provider (a teardown publishing its
+	// will, a connection accepted while the server closes): take the locks and
+	// leave empty trees behind instead of nil pointers.
+	mt.smu.Lock()
+	mt.sroot = newSNode()
+	mt.smu.Unlock()
+
+	mt.rmu.Lock()
+	mt.rroot = newRNode()
+	mt.rmu.Unlock()
+
 	return nil
 }
 
